@@ -25,6 +25,10 @@ pub enum Case {
         /// 0 = fresh directory; 1 = an older, longer output is present (build); 2 = same with --needed
         #[serde(default)]
         stale: u8,
+        /// two more sources are built in the same run, before this one and by the same worker
+        /// thread: one with ordinary text before an include of the other's output
+        #[serde(default)]
+        company: bool,
     },
     /// `text` escaped by one write directive, surrounded by stored tags
     Escape {
@@ -100,6 +104,7 @@ fn gen_case(c: &mut Choices) -> Case {
             final_newline: !c.chance(1, 4),
             trailing_newline,
             stale: c.weighted(&[4, 1, 2]) as u8,
+            company: c.chance(1, 3),
         }
     } else {
         let n = 1 + c.below(5);
@@ -138,35 +143,35 @@ fn gen_case(c: &mut Choices) -> Case {
 }
 
 fn opts(trailing_newline: bool) -> RunOpts {
-    opts_mode(trailing_newline, ModeS::Build)
+    opts_mode(trailing_newline, ModeS::Build, false)
 }
 
-fn opts_mode(trailing_newline: bool, mode: ModeS) -> RunOpts {
+fn opts_mode(trailing_newline: bool, mode: ModeS, company: bool) -> RunOpts {
     RunOpts {
         mode,
         trailing_newline,
         threads: 1,
         recursive: false,
-        inputs: vec!["t.txt".into()],
+        inputs: if company { vec!["a.txt".into(), "t.txt".into()] } else { vec!["t.txt".into()] },
         shell: String::new(),
     }
 }
 
 /// build `t.txt`, possibly over an older output that starts with the expected bytes and goes on
 /// (the result must not depend on it), in build or --needed mode
-fn run_over_stale(su: &super::common::Setup, want: &[u8], stale: u8, trailing_newline: bool) -> runner::Outcome {
+fn run_over_stale(su: &super::common::Setup, want: &[u8], stale: u8, trailing_newline: bool, company: bool) -> runner::Outcome {
     if stale > 0 {
         let mut old = want.to_vec();
         old.extend_from_slice(b"an older, longer version\n");
         let _ = std::fs::write(su.sc.root.join("t.txt"), old);
     }
     let mode = if stale == 2 { ModeS::Needed } else { ModeS::Build };
-    runner::run_free(&su.sc.root, &opts_mode(trailing_newline, mode))
+    runner::run_free(&su.sc.root, &opts_mode(trailing_newline, mode, company))
 }
 
 pub fn check(case: &Case, st: &mut Stats) -> Check {
     match case {
-        Case::Identity { lines, crlf, flips, final_newline, trailing_newline, stale } => {
+        Case::Identity { lines, crlf, flips, final_newline, trailing_newline, stale, company } => {
             let le = if *crlf { "\r\n" } else { "\n" };
             let other = if *crlf { "\n" } else { "\r\n" };
             let mut src = String::new();
@@ -184,9 +189,13 @@ pub fn check(case: &Case, st: &mut Stats) -> Check {
             }
             let mut p = Project::default();
             p.put("t.txt.txtpp", src.clone());
+            if *company {
+                p.put("a.txt.txtpp", "heading of a\nsecond heading\nTXTPP#include z.txt\nend of a\n".to_string());
+                p.put("z.txt.txtpp", "z\n".to_string());
+            }
             let su = materialise(&p);
             su.write(&p);
-            let out = run_over_stale(&su, want.as_bytes(), *stale, *trailing_newline);
+            let out = run_over_stale(&su, want.as_bytes(), *stale, *trailing_newline, *company);
             if lines.iter().any(|l| l.contains("TXTPP") || l.contains("TAG") || l.contains("T1")) {
                 st.nontrivial_hash(&(src.clone(), *trailing_newline));
             }
@@ -273,7 +282,7 @@ pub fn check(case: &Case, st: &mut Stats) -> Check {
             p.put("t.txt.txtpp", src.clone());
             let su = materialise(&p);
             su.write(&p);
-            let out = run_over_stale(&su, want.as_bytes(), *stale, *trailing_newline);
+            let out = run_over_stale(&su, want.as_bytes(), *stale, *trailing_newline, false);
             let lookalike = text.iter().any(|l| l.contains("TXTPP#") || tags.iter().any(|(n, _)| l.contains(n.as_str())));
             if lookalike {
                 st.nontrivial_hash(&(src.clone(), *trailing_newline));
@@ -313,7 +322,7 @@ pub fn check(case: &Case, st: &mut Stats) -> Check {
 fn reduce(case: &Case) -> Vec<Case> {
     let mut v = vec![];
     match case {
-        Case::Identity { lines, crlf, flips, final_newline, trailing_newline, stale } => {
+        Case::Identity { lines, crlf, flips, final_newline, trailing_newline, stale, company } => {
             for i in 0..lines.len() {
                 let mut l = lines.clone();
                 l.remove(i);
@@ -321,7 +330,7 @@ fn reduce(case: &Case) -> Vec<Case> {
                 if i < f.len() {
                     f.remove(i);
                 }
-                v.push(Case::Identity { lines: l, crlf: *crlf, flips: f, final_newline: *final_newline, trailing_newline: *trailing_newline, stale: *stale });
+                v.push(Case::Identity { lines: l, crlf: *crlf, flips: f, final_newline: *final_newline, trailing_newline: *trailing_newline, stale: *stale, company: *company });
             }
         }
         Case::Escape { text, indent, prefix, tags, before, crlf, trailing_newline, stale } => {
@@ -353,7 +362,7 @@ impl Prop for C16 {
         PropMeta {
             id: "C16",
             level: "exploration",
-            rule: "two round trips over an alphabet of directive and tag look-alikes (TXTPP#run, -TXTPP#, TXTPP#include a.txt, tag names in use, prefixes, blanks, non-ASCII), LF/CRLF incl. mixed, with/without final newline, option on/off, from a fresh directory or over an older, longer output (build and --needed). Identity: lines made ordinary by construction (no line has the directive shape of the property statement) must come out joined by the file's line ending. Escape: any line sequence (first without leading blank, none with trailing blank) written as one write directive with generated indent and prefix, with 0-2 stored tags whose names may occur in the text, must come out line for line (indented), never executed, never tag-substituted; the stored tags are consumed by trailer lines. Non-trivial = text contains TXTPP or a tag name; distinct by (source, option).",
+            rule: "two round trips over an alphabet of directive and tag look-alikes (TXTPP#run, -TXTPP#, TXTPP#include a.txt, tag names in use, prefixes, blanks, non-ASCII), LF/CRLF incl. mixed, with/without final newline, option on/off, from a fresh directory or over an older, longer output (build and --needed), alone or (identity) in one run with two other sources handled first by the same worker thread, one of which has ordinary text before an include of the other's output. Identity: lines made ordinary by construction (no line has the directive shape of the property statement) must come out joined by the file's line ending. Escape: any line sequence (first without leading blank, none with trailing blank) written as one write directive with generated indent and prefix, with 0-2 stored tags whose names may occur in the text, must come out line for line (indented), never executed, never tag-substituted; the stored tags are consumed by trailer lines. Non-trivial = text contains TXTPP or a tag name; distinct by (source, option).",
             assumptions: vec!["expected bytes are computed by construction from the generated pieces, not by the reference model"],
             hang_is_violation: false,
             needs_cli: false,
